@@ -519,3 +519,181 @@ func ethCase(run *emit.Run, s string) {
 
 var _ = hex.EncodeToString
 var _ = big.NewInt
+
+// ---- round 4: the end-blocker tally over competing attestations; chain ids in other spellings ----
+
+// tallyChecked runs the REAL end-blocker tally for the chain and checks, on the store read back afterwards:
+// an attestation that became observed holds, BY ITS OWN distinct voters alone, more than the required power; and at
+// most one attestation of a nonce is observed.
+func (e *env) tallyChecked(run *emit.Run, name, chain string, replay any) (newlyObserved int) {
+	before := map[string]bool{}
+	for _, a := range e.attestations([]string{chain}) {
+		before[string(a.Key)] = a.Obs
+	}
+	if err := e.tally(chain); err != nil {
+		run.Count("tally", "error")
+	}
+	perNonce := map[uint64]int{}
+	for _, a := range e.attestations([]string{chain}) {
+		if !a.Obs {
+			continue
+		}
+		perNonce[a.Body.GetSkywayNonce()]++
+		if before[string(a.Key)] {
+			continue
+		}
+		newlyObserved++
+		own, req := e.powerOf(a.Votes)
+		if !own.GT(req) {
+			run.Violate("C11:observed-without-own-quorum:"+typeName(a.Body), fmt.Sprintf("%s: the end-blocker tally observed (and applied) the %s attestation %x whose own voters %v hold power %s, required is more than %s — votes cast for OTHER claims were counted for it",
+				name, typeName(a.Body), a.Key, a.Votes, own, req), replay)
+		}
+	}
+	for n, k := range perNonce {
+		if k > 1 {
+			run.Violate("C11:two-attestations-observed-at-one-nonce", fmt.Sprintf("%s: %d attestations of nonce %d on %s are observed", name, k, n, chain), replay)
+		}
+	}
+	return newlyObserved
+}
+
+// grindAfter changes a free field of y (the amount, or the compass id for batch claims) until its store key sorts
+// after (or, if !after, before) the key of x.
+func grindAfter(r *rand.Rand, x, y spec, after bool) spec {
+	for i := 0; i < 200; i++ {
+		c := bytes.Compare(realKey(build(y)), realKey(build(x)))
+		if (after && c > 0) || (!after && c < 0) {
+			return y
+		}
+		if y.T == tBatch {
+			y.Compass = fmt.Sprint("g", r.Intn(1_000_000))
+		} else {
+			y.Amount = big.NewInt(int64(2 + r.Intn(1_000_000_000)))
+		}
+	}
+	return y
+}
+
+// doSplit: two competing claims X (honest, h voters) and Y (deviating, d voters) for the next nonce, neither with a
+// quorum of its own but h+d above it, tallied by the real end blocker in one block; then the remaining honest votes
+// and a second tally.
+func doSplit(run *emit.Run, base *env, r *rand.Rand, yAfter bool) {
+	e := base.fork()
+	rt := e.router()
+	tt := r.Intn(3)
+	x := honestSpec(r, tt, 1)
+	if tt == tBatch {
+		x.Height = 1 + uint64(r.Intn(500))
+	}
+	y := x.clone()
+	switch tt {
+	case tDeposit:
+		y.Receiver = sdk.AccAddress(keeper.AccAddrs[4]).String()
+		y.Amount = big.NewInt(999_999)
+	case tSale:
+		y.Client = sdk.AccAddress(keeper.AccAddrs[4]).String()
+		y.Amount = big.NewInt(999_999)
+	default:
+		y.Compass = "g0"
+	}
+	y = grindAfter(r, x, y, yAfter)
+	perm := r.Perm(5)
+	h, d := 3, 1+r.Intn(2) // 5 equal validators: 3 = 60 % (no quorum), 3+1 = 80 %
+	if r.Intn(3) == 0 {
+		h, d = 2, 2
+	}
+	name := fmt.Sprintf("split:%dv%d:deviating-key-%s", h, d, map[bool]string{true: "after", false: "before"}[yAfter])
+	var js []jspec
+	submit := func(s spec) {
+		js = append(js, toJ(s))
+		c := wireCopy(build(s))
+		before := map[string]attRec{}
+		for _, a := range e.attestations([]string{s.Chain}) {
+			before[string(a.Key)] = a
+		}
+		if res, _ := e.deliver(rt, build(s)); res == "ok" {
+			after := map[string]attRec{}
+			for _, a := range e.attestations([]string{s.Chain}) {
+				after[string(a.Key)] = a
+			}
+			voteOracle(run, e, name, s.Orch, c, before, after, map[string]any{"kind": "split-history", "name": name, "ops": js})
+		}
+	}
+	var order []spec
+	for i := 0; i < h; i++ {
+		s := x.clone()
+		s.Orch = perm[i]
+		order = append(order, s)
+	}
+	for i := 0; i < d; i++ {
+		s := y.clone()
+		s.Orch = perm[h+i]
+		order = append(order, s)
+	}
+	r.Shuffle(len(order), func(i, j int) { order[i], order[j] = order[j], order[i] })
+	for _, s := range order {
+		submit(s)
+	}
+	replay := map[string]any{"kind": "split-history", "name": name, "ops": js, "then": "end-blocker tally; remaining validators vote for the first body; end-blocker tally"}
+	n1 := e.tallyChecked(run, name, x.Chain, replay)
+	if n1 > 0 {
+		run.Count("split", name+":observed-in-first-block")
+	} else {
+		run.Count("split", name+":nothing-observed-in-first-block")
+	}
+	for i := h + d; i < 5; i++ {
+		s := x.clone()
+		s.Orch = perm[i]
+		submit(s)
+	}
+	e.tallyChecked(run, name, x.Chain, replay)
+	run.Count("gen", name)
+}
+
+// chainSpelling: other spellings of a chain reference id.
+func chainSpelling(r *rand.Rand, ch string) string {
+	switch r.Intn(8) {
+	case 0:
+		return strings.ToUpper(ch)
+	case 1:
+		return strings.ToLower(ch)
+	case 2:
+		return strings.ToUpper(ch[:1]) + ch[1:]
+	case 3:
+		return " " + ch
+	case 4:
+		return ch + " "
+	case 5:
+		return ch + "\t"
+	case 6:
+		return strings.ReplaceAll(ch, "-", "_")
+	}
+	return strings.ToUpper(ch[:4]) + ch[4:]
+}
+
+// chainCaseHistory: the first submitter names the chain in another spelling (or the other of two registered chains
+// whose ids differ only in case); the honest validators name the real one.
+func chainCaseHistory(r *rand.Rand) ([]gstep, string) {
+	tt := r.Intn(3)
+	v := honestSpec(r, tt, 1)
+	if tt == tBatch {
+		v.Height = 1 + uint64(r.Intn(500))
+	}
+	if r.Intn(3) == 0 {
+		v.Chain = chainUpper // the honest claims are about the registered upper-case chain
+	}
+	a := v.clone()
+	a.Orch = 4
+	a.Chain = chainSpelling(r, v.Chain)
+	for i := 0; a.Chain == v.Chain && i < 10; i++ {
+		a.Chain = chainSpelling(r, v.Chain)
+	}
+	var ops []spec
+	ops = append(ops, a)
+	for i := 0; i < 4; i++ {
+		h := v.clone()
+		h.Orch = i
+		ops = append(ops, h)
+	}
+	return subs(ops), "chain-spelling"
+}
